@@ -7,7 +7,7 @@
 (* ====================================================================== *)
 Require Import String.
 Require Import Arith Lia List Bool ZArith QArith Qcanon.
-From TK Require Import Mat_Sums Mat_Core Mat_Qc Proj_Model Proj_Spec Proj_Proof Proj_Table Proj Proj_Tie.
+From TK Require Import Mat_Sums Mat_Core Mat_Qc Proj_Model Proj_Spec Proj_Proof Proj_Proof_Range Proj_Table Proj Proj_Tie.
 Import ListNotations.
 Local Open Scope nat_scope.
 
@@ -223,3 +223,134 @@ Proof.
   split; [discriminate|]. split; [split; [reflexivity|repeat constructor]|].
   split; [split; [reflexivity|repeat constructor]|]. apply Qc_of_nat_neq0. lia.
 Qed.
+
+(* ====================================================================== *)
+(*  Wave 2: index ranges, blocks, scale                                    *)
+(* ====================================================================== *)
+
+(* 9. [begin, end) is ANY list of sample ids of the caller's data set (sub-range, offset block,
+      permutation): row k of the embedding is P^T (x_{ids[k]} - m), i.e. what the returned function
+      computes on sample ids[k] — not on sample k *)
+Theorem C07_project_over_index_range :
+  forall (F : Type) (Fo : FieldOps F) (M D d : nat) (P : list (list F)) (m : list F)
+         (Xall : list (list F)) (ids : list nat) (Y : list (list F)),
+    wf_mat D d P -> length m = D -> wf_mat M D Xall -> Forall (fun id => id < M) ids ->
+    project_range D d P m Xall ids = POk Y ->
+    length Y = length ids /\
+    forall k, k < length ids ->
+      mpi_project_exec D d P m (sample Xall (nth k ids 0)) = POk (nth k Y []) /\
+      nth k Y [] = vtab d (mpi_project D (mof P) (vof m) (mof Xall (nth k ids 0))).
+Proof. exact @project_range_row. Qed.
+Print Assumptions C07_project_over_index_range.
+
+Definition ex7_ids : list nat := [3; 1; 2].
+
+Example C07_index_range_nonvacuous :
+  wf_mat 3 2 ex7_P /\ length ex7_m = 3 /\ wf_mat 4 3 ex7_X /\ Forall (fun id => id < 4) ex7_ids /\
+  exists Y, project_range 3 2 ex7_P ex7_m ex7_X ex7_ids = POk Y /\ length Y = 3 /\
+            (* and the range matters: row 0 is sample 3's image, not sample 0's *)
+            mpi_project_exec 3 2 ex7_P ex7_m (sample ex7_X 0) <> POk (nth 0 Y []).
+Proof.
+  assert (WP : wf_mat 3 2 ex7_P) by (split; [reflexivity|repeat constructor]).
+  assert (WX : wf_mat 4 3 ex7_X) by (split; [reflexivity|repeat constructor]).
+  assert (WI : Forall (fun id => id < 4) ex7_ids) by (repeat constructor).
+  split; [exact WP|]. split; [reflexivity|]. split; [exact WX|]. split; [exact WI|].
+  destruct (project_range 3 2 ex7_P ex7_m ex7_X ex7_ids) as [Y|a b c] eqn:E.
+  - exists Y. split; [reflexivity|].
+    destruct (@project_range_row Qc QcOps 4 3 2 ex7_P ex7_m ex7_X ex7_ids Y WP eq_refl WX WI E) as [HL HR].
+    split; [exact HL|].
+    destruct (HR 0) as [H0 _]; [cbn; lia|]. intros Hbad. rewrite <- H0 in Hbad.
+    assert (Hne : match mpi_project_exec 3 2 ex7_P ex7_m (sample ex7_X 0),
+                        mpi_project_exec 3 2 ex7_P ex7_m (sample ex7_X (nth 0 ex7_ids 0)) with
+                  | POk a, POk b => negb (vlist_eqb a b) | _, _ => false end = true)
+      by (vm_compute; reflexivity).
+    rewrite Hbad in Hne.
+    destruct (mpi_project_exec 3 2 ex7_P ex7_m (sample ex7_X (nth 0 ex7_ids 0))) as [v|? ? ?]; [|discriminate].
+    apply negb_true_iff in Hne.
+    assert (Hv : vlist_eqb v v = true) by (apply vlist_eqb_ok; reflexivity). congruence.
+  - exfalso. unfold project_range in E.
+    rewrite (@gather_exec_ok Qc ex7_X ex7_ids) in E by (repeat constructor).
+    rewrite (@project_exec_ok Qc QcOps 3 3 2 ex7_P ex7_m _ WP eq_refl) in E; [discriminate|].
+    split; [reflexivity|repeat constructor].
+Qed.
+
+(* an id outside the data set is reported, never replaced by a default vector *)
+Theorem C07_range_checked :
+  forall (F : Type) (Fo : FieldOps F) (D d : nat) (P : list (list F)) (m : list F)
+         (Xall : list (list F)) (ids : list nat) (Y : list (list F)),
+    project_range D d P m Xall ids = POk Y -> Forall (fun id => id < length Xall) ids.
+Proof. exact @project_range_checked. Qed.
+Print Assumptions C07_range_checked.
+
+(* 10. the tail of embed() over an arbitrary range: the stored mean is the mean of the samples IN THE
+       RANGE, the output is consistent, and the returned function on sample ids[k] gives row k *)
+Theorem C07_projecting_output_over_range :
+  forall (F : Type) (Fo : FieldOps F) (Ff : IsField F) (M D d : nat)
+         (P Xall : list (list F)) (ids : list nat),
+    wf_mat D d P -> wf_mat M D Xall -> Forall (fun id => id < M) ids ->
+    let N := length ids in
+    let Xs := map (sample Xall) ids in
+    exists Y m,
+      projecting_embed_tail_range D d P Xall ids = POk (Y, PFMatrix P m) /\
+      m = vtab D (mean_vec N (mof Xs)) /\
+      (of_nat N <> 0%F -> output_consistent N D d (mof Xs) (mof Y) (mof P) (vof m)) /\
+      forall k, k < N ->
+        pf_apply D d (PFMatrix P m) (sample Xall (nth k ids 0)) = Some (POk (nth k Y [])).
+Proof. exact @projecting_embed_tail_range_ok. Qed.
+Print Assumptions C07_projecting_output_over_range.
+
+Example C07_output_over_range_nonvacuous :
+  wf_mat 3 2 ex7_P /\ wf_mat 4 3 ex7_X /\ Forall (fun id => id < 4) ex7_ids /\ @of_nat Qc _ (length ex7_ids) <> 0%F.
+Proof.
+  split; [split; [reflexivity|repeat constructor]|]. split; [split; [reflexivity|repeat constructor]|].
+  split; [repeat constructor|]. apply Qc_of_nat_neq0. cbn. lia.
+Qed.
+
+(* 11. project() computed block by block — for ANY split of the samples into consecutive blocks —
+       is the per-sample loop: every sample of every block (the last block included, whatever
+       its size) gets its row P^T (x - m) *)
+Theorem C07_project_blockwise :
+  forall (F : Type) (Fo : FieldOps F) (N D d : nat) (P : list (list F)) (m : list F)
+         (blocks : list (list (list F))),
+    project_blocks D d P m blocks = project_rows D d P m (concat blocks) /\
+    (wf_mat D d P -> length m = D -> wf_mat N D (concat blocks) ->
+     project_blocks D d P m blocks = POk (mtab N d (project_mat D (mof P) (vof m) (mof (concat blocks))))).
+Proof. exact @project_blockwise_all. Qed.
+Print Assumptions C07_project_blockwise.
+
+Example C07_blockwise_nonvacuous :
+  exists blocks : list (list (list Qc)),
+    wf_mat 3 2 ex7_P /\ length ex7_m = 3 /\ wf_mat 4 3 (concat blocks) /\ length blocks = 2.
+Proof.
+  exists [[[qz 1; qz 2; qz 3]; [qz 3; qz 2; qz 1]; [qz 5; qz 5; qz 5]]; [[qz (-1); qz 3; qz 7]]].
+  split; [split; [reflexivity|repeat constructor]|]. split; [reflexivity|].
+  split; [split; [reflexivity|repeat constructor]|reflexivity].
+Qed.
+
+(* 12. scale equivariance, function level: no absolute magnitude enters — scaling the data (and the
+       query) by ANY s scales mean, embedding and projection by s, with the same matrix P *)
+Theorem C07_scale_equivariant :
+  forall (F : Type) (Fo : FieldOps F) (Ff : IsField F) (N D : nat) (P X : mat F) (s : F) (m x : vec F),
+    (forall t, mean_vec N (fun i u => (s * X i u)%F) t = (s * mean_vec N X t)%F) /\
+    (forall c, mpi_project D P (fun t => (s * m t)%F) (fun t => (s * x t)%F) c = (s * mpi_project D P m x c)%F) /\
+    (forall c, mpi_project D (fun t c => (s * P t c)%F) m x c = (s * mpi_project D P m x c)%F) /\
+    (forall i c, project_mat D P (mean_vec N (fun i u => (s * X i u)%F)) (fun i u => (s * X i u)%F) i c =
+                 (s * project_mat D P (mean_vec N X) X i c)%F).
+Proof. exact @scale_equivariant_all. Qed.
+Print Assumptions C07_scale_equivariant.
+
+(* ... and for the executed loops: the tail of embed() on data scaled by s returns the scaled embedding
+   and (P, s * mean); the returned function on the scaled sample i gives the scaled row i *)
+Theorem C07_tail_scale_equivariant :
+  forall (F : Type) (Fo : FieldOps F) (Ff : IsField F) (N D d : nat) (s : F) (P Xs : list (list F)),
+    wf_mat D d P -> wf_mat N D Xs ->
+    exists Y m,
+      projecting_embed_tail D d P Xs = POk (Y, PFMatrix P m) /\
+      projecting_embed_tail D d P (mlscale s Xs) = POk (mlscale s Y, PFMatrix P (lscale s m)) /\
+      forall i, i < N ->
+        pf_apply D d (PFMatrix P (lscale s m)) (lscale s (nth i Xs [])) = Some (POk (lscale s (nth i Y []))).
+Proof. exact @projecting_embed_tail_scale. Qed.
+Print Assumptions C07_tail_scale_equivariant.
+
+Example C07_tail_scale_nonvacuous : wf_mat 3 2 ex7_P /\ wf_mat 4 3 ex7_X.
+Proof. split; (split; [reflexivity|repeat constructor]). Qed.
